@@ -31,7 +31,7 @@ REACH = [("yamlpath/merger/merger.py", "_resolve_anchor_conflicts,_calc_unique_a
          ("yamlpath/common/anchors.py", "scan_for_anchors,rename_anchor,replace_anchor", "Anchors.scan/rename/replace")]
 SIZES = {"quick": 30000, "thorough": 800000}
 REQUIRED_COUNTERS = ["conflict_cases", "equal_value_cases", "reload_checked", "stop_refused", "equal_value_other_spelling_cases",
-                     "rhs_defines_rename_target_name", "sequence_cases"]
+                     "rhs_defines_rename_target_name", "sequence_cases", "anchored_key_cases", "multi_target_cases"]
 VALS = ["x", "y", "1", "2", "'x'", '"x"', "0x1", "'1'", '"y"', "0x2", "true", "''", "false", "0.0"]     # falsy values too
 NAMES = ["A1", "A2", "A3"]
 EXTRA_NAMES = ["A1_1", "A2_1", "A1_2"]       # what a rename of A1 / A2 would like to call itself
@@ -151,9 +151,12 @@ def anchored_nodes(data, out=None):
     return out
 
 
-def merge(ltext, rtext, anchors, combo):
+def merge(ltext, rtext, anchors, combo, mergeat=None):
     L, R = yp.load(ltext), yp.load(rtext)
-    cfg = MergerConfig(LOG, SimpleNamespace(hashes=combo[0], arrays=combo[1], aoh=combo[2], sets=combo[3], anchors=anchors))
+    ns = SimpleNamespace(hashes=combo[0], arrays=combo[1], aoh=combo[2], sets=combo[3], anchors=anchors)
+    if mergeat:
+        ns.mergeat = mergeat
+    cfg = MergerConfig(LOG, ns)
     m = Merger(LOG, L, cfg)
     m.merge_with(R)
     return m.data
@@ -348,11 +351,38 @@ def run_shard(ctx):
             for pol in POLICIES:
                 run_sequence(ctx, texts, pol, rng.choice(MERGE_SAMPLE))
         n += 1
+        if n % 8 == 0:
+            special_cases(ctx, rng)
         if n <= 2:
             ctx.sample({"lhs": gd.render(lt), "rhs": gd.render(rt)})
 
 
-def run_text_case(ctx, ltext, ldefs, rtext, rdefs, policy, combo):
+def special_cases(ctx, rng):
+    """Two shapes the tree generator does not make: scalar anchors defined on Hash KEYS, and merges aimed (mergeat) at
+    several left-hand nodes at once.  Both go the text route (expectation by textual substitution)."""
+    v = lambda: rng.choice(["x", "y", "1", "2", "name"])
+    # -- anchored keys
+    kl, kr = rng.choice(["name", "x"]), rng.choice(["name", "x", "y"])
+    l = "{&A1 %s: %s, lref: *A1%s}" % (kl, v(), rng.choice(["", ", l: [*A1, z]", ", m: {n: *A1}"]))
+    r = "{&A1 %s: %s, rref: *A1%s}" % (kr, v(), rng.choice(["", ", l: [*A1]", ", m: {o: *A1}"]))
+    combo = rng.choice(MERGE_SAMPLE)
+    for pol in POLICIES:
+        ctx.count("anchored_key_cases")
+        run_text_case(ctx, l, {"A1": kl}, r, {"A1": kr}, pol, combo)
+    # -- several merge targets
+    lv, rv = v(), v()
+    l = "{shared: &A1 %s, more: *A1, targets: {t1: {x: 1}, t2: {x: %s}, u3: {x: 3, also: q}}}" % (lv, rng.choice(["2", "*A1"]))
+    r = "{val: &A1 %s, also: *A1%s}" % (rv, rng.choice(["", ", l: [*A1, *A1]", ", second: &A2 w, t: *A2"]))
+    rdefs = {"A1": rv}
+    if "&A2" in r:
+        rdefs["A2"] = "w"
+    at = rng.choice(["/targets/*", "/targets/t1", "targets.t*", "/targets/*[x>0]"])
+    for pol in POLICIES:
+        ctx.count("multi_target_cases" if at != "/targets/t1" else "single_target_cases")
+        run_text_case(ctx, l, {"A1": lv}, r, rdefs, pol, combo, mergeat=at)
+
+
+def run_text_case(ctx, ltext, ldefs, rtext, rdefs, policy, combo, mergeat=None):
     """Seed route: expectation by textual substitution of aliases/anchors."""
     import re
 
@@ -365,13 +395,20 @@ def run_text_case(ctx, ltext, ldefs, rtext, rdefs, policy, combo):
     conflicts = [n for n in ldefs if n in rdefs and canon(ldefs[n]) != canon(rdefs[n])]
     lsub = {n: rdefs[n] for n in conflicts} if policy == "right" else {}
     rsub = {n: ldefs[n] for n in conflicts} if policy == "left" else {}
-    case = {"lhs": ltext, "rhs": rtext, "anchors": policy, "policies": combo}
+    case = {"lhs": ltext, "rhs": rtext, "anchors": policy, "policies": combo, "mergeat": mergeat}
     ctx.evaluations += 1
+    if conflicts:
+        ctx.mark_nontrivial([ltext, rtext, policy, combo, mergeat])
     try:
-        got = merge(ltext, rtext, policy, combo)
-    except (MergeException, YAMLPathException):
+        got = merge(ltext, rtext, policy, combo, mergeat)
+    except (MergeException, YAMLPathException) as e:
         if not (policy == "stop" and conflicts):
-            ctx.violation("refused-without-conflict/%s" % policy, {"case": case, "summary": "seed refused"})
+            try:
+                merge(expand_text(ltext, ldefs, lsub), expand_text(rtext, rdefs, rsub), "stop", combo, mergeat)
+            except (MergeException, YAMLPathException, yp.LoadError):
+                ctx.count("both_refused")        # nothing to do with anchors: the anchor-free twins do not merge either
+                return
+            ctx.violation("refused-without-conflict/%s" % policy, {"case": case, "summary": "refused: %s" % str(e)[:150]})
         else:
             ctx.counters["stop_refused"] = ctx.counters.get("stop_refused", 0) + 1
         return
@@ -381,7 +418,17 @@ def run_text_case(ctx, ltext, ldefs, rtext, rdefs, policy, combo):
     if policy == "stop" and conflicts:
         ctx.violation("stop-did-not-refuse", {"case": case, "summary": "seed merged"})
         return
-    exp = merge(expand_text(ltext, ldefs, lsub), expand_text(rtext, rdefs, rsub), "stop", combo)
+    try:
+        exp = merge(expand_text(ltext, ldefs, lsub), expand_text(rtext, rdefs, rsub), "stop", combo, mergeat)
+    except (MergeException, YAMLPathException, yp.LoadError):
+        ctx.count("twin_refused_but_real_merged")        # (e.g. the substituted key now collides with another key)
+        return
+    for n, nodes in anchored_nodes(got).items():
+        vals = {repr(yp.scalar_plain(x)) if not yp.is_container(x) else "container" for x in nodes}
+        if len(vals) > 1:
+            ctx.violation("one-name-two-values/%s" % policy, {"case": case, "summary": "anchor %s holds %r ; dump=%r" % (
+                n, sorted(vals), yp.dump(got)[:300])})
+            return
     if norm(yp.plain(got)) != norm(yp.plain(exp)):
         ctx.violation("data-differs/%s" % policy, {"case": case, "summary": "merged %r ; expected %r" % (
             yp.dump(got)[:200], yp.dump(exp)[:200])})
@@ -413,7 +460,7 @@ def replay(w):
     cx = _Ctx()
     ldefs = dict(re.findall(r"&(\w+) (\w+)", c["lhs"]))
     rdefs = dict(re.findall(r"&(\w+) (\w+)", c["rhs"]))
-    run_text_case(cx, c["lhs"], ldefs, c["rhs"], rdefs, c["anchors"], tuple(c["policies"]))
+    run_text_case(cx, c["lhs"], ldefs, c["rhs"], rdefs, c["anchors"], tuple(c["policies"]), c.get("mergeat"))
     return {"violated": bool(cx.v), "found": cx.v}
 
 
